@@ -33,6 +33,9 @@ PHASE_TABLES = [
     ("four", ("(s)", "(l)", "(g)", "(aq)")),
     ("inner", ("(s)", "(O)")),  # a phase token that can also occur *inside* a formula of the grammar
 ]
+import copy as _copy
+
+_PRISTINE = {n: _copy.deepcopy(t) for n, t in PHASE_TABLES}
 ARROWS = {
     ("latex", "Reaction"): "\\rightarrow",
     ("latex", "Equilibrium"): "\\rightleftharpoons",
@@ -200,7 +203,14 @@ def _check_substance(res, st, s, case_base):
         res.states += 1
         res.transitions += 1
         res.evaluations += 1
-        exp_idx = _phase_idx_model(s, table, dflt)
+        # the table object handed to chempy is the caller's and is re-used for every call; the model reads a pristine copy
+        pristine = _PRISTINE[tname]
+        if table is not None and (list(table) != list(pristine) or (isinstance(table, dict) and dict(table) != dict(pristine))):
+            res.violation("C13|Species.from_formula|callers-phases-modified", "the caller's phases object %s now reads %r (given as %r) after earlier Species.from_formula calls; next formula %r" % (
+                tname, table, pristine, s), dict(case_base, what="species", table=tname), repr(table), repr(pristine))
+            if isinstance(table, list):
+                table[:] = list(pristine)
+        exp_idx = _phase_idx_model(s, pristine, dflt)
         if exp_idx:
             res.nontrivial += 1
         tname = tname if dflt == 0 else "%s,default_phase_idx=%r" % (tname, dflt)
